@@ -49,14 +49,15 @@ Definition fpcmp (absolute : bool) (a b : Z) : bool * bool * bool :=
      (sa && negb sb) || (s_eq && mux2 sa e_lt e_gt) || (s_eq && e_eq && mux2 sa m_lt m_gt)).
 
 (* ---- FPAdder_SP(a, b, r) *)
-Record add_wires := { aw_a2 : Z; aw_b2 : Z; aw_ediff : Z; aw_mb3 : Z; aw_mr : Z; aw_clz : Z; aw_mr2 : Z; aw_er : Z; aw_r : Z }.
-Definition fpadd_wires (a b : Z) : add_wires :=
-  let '(_, _, ilt) := fpcmp true a b in                                (* cmp, absolute mode *)
-  let a2 := mux2 ilt a b in let b2 := mux2 ilt b a in                  (* Swap(a, b, ilt) *)
+(* cmp (absolute mode) + Swap(a, b, ilt): the operand of larger magnitude first *)
+Definition add_swap (a b : Z) : Z * Z :=
+  let ilt := snd (fpcmp true a b) in (mux2 ilt a b, mux2 ilt b a).
+(* the datapath after the swap; ew = width of the ediff wire (5 in the circuit) *)
+Definition add_core_gen (ew : Z) (a2 b2 : Z) : Z :=
   let sa := fp_s a2 in let sb := fp_s b2 in
   let ma := fp_m a2 in let mb := fp_m b2 in                            (* 24 bits *)
   let ea := fp_e a2 in let eb := fp_e b2 in                            (* raw exponents, 8 bits *)
-  let ediff := sub_w 5 ea eb in                                        (* 5 bits (!) *)
+  let ediff := sub_w ew ea eb in                                       (* 5 bits (!) *)
   let mb3 := shr_w 24 mb ediff in                                      (* 24 bits *)
   let m_a_plus_b := add_w 25 ma mb3 in                                 (* 25 bits *)
   let m_a_minus_b := sub_w 25 ma mb3 in                                (* 25 bits *)
@@ -67,9 +68,9 @@ Definition fpadd_wires (a b : Z) : add_wires :=
   let pre_er := sub_w 8 ea clz in                                      (* 8 bits *)
   let er := add_w 8 pre_er 1 in                                        (* 8 bits *)
   let mr3 := rng 23 1 mr2 in                                           (* 23 bits; the round_up wires drive nothing *)
-  {| aw_a2 := a2; aw_b2 := b2; aw_ediff := ediff; aw_mb3 := mb3; aw_mr := mr; aw_clz := clz; aw_mr2 := mr2; aw_er := er;
-     aw_r := cat_sem sa er mr3 |}.
-Definition fpadd (a b : Z) : Z := aw_r (fpadd_wires a b).
+  cat_sem sa er mr3.                                                   (* sr = Buf(sa) *)
+Definition add_core := add_core_gen 5.
+Definition fpadd (a b : Z) : Z := add_core (fst (add_swap a b)) (snd (add_swap a b)).
 
 (* ---- FPMult_SP(a, b, r) *)
 Definition fpmul (a b : Z) : Z :=
@@ -95,24 +96,30 @@ Definition int2fp (a : Z) : Z * bool :=
   let exponent := sub_w 8 158 clz in                                   (* 8 bits *)
   (mux2 is_zero (cat_sem sign exponent fraction) 0, p_lost).
 
-(* ---- FPtoInt_SP(a, r, p_lost, denorm, invalid);  plost_hi = 32 is the circuit: Range(shifted, 32, 0) *)
-Definition fp2int_gen (plost_hi : Z) (a : Z) : Z * bool * bool * bool :=
-  let sign := fp_s a in
+(* ---- FPtoInt_SP(a, r, p_lost, denorm, invalid) *)
+(* the 64-bit wire `shifted` *)
+Definition f2i_shifted (a : Z) : Z :=
   let real_e := fp_real_e a in                                         (* 8 bits, exponent minus bias, two's complement *)
   let real_m := fp_m a in                                              (* 24 bits *)
-  let is_denorm := fp_isdenorm a in
-  let is_zero := fp_iszero a in
   let frac0 := Z.shiftl real_m 32 in                                   (* ConcatenateMSBF [real_m; 0(32)], 56 bits *)
-  let sign_real_e := Z.testbit real_e 7 in
   let shift_amount_right := sub_w 8 23 real_e in                       (* 8 bits *)
   let shift_amount_left := sub_w 8 real_e 23 in                        (* 8 bits *)
   let shift_sign := Z.testbit shift_amount_right 7 in
   let shifted_right := trunc 64 (shr_w 56 frac0 shift_amount_right) in (* stages on 56-bit wires, Buf into 64 *)
   let shifted_left := shl_w 64 frac0 shift_amount_left in              (* stages on 64-bit wires *)
-  let shifted := mux2 shift_sign shifted_right shifted_left in         (* 64 bits *)
-  (* hw_signed_gt_constant(real_e, 30): ComparatorSignedUnsigned, gt = gtu xor (sign a xor sign 30) *)
-  let '(gtu, _, _) := cmp_w 8 real_e 30 in
-  let too_big := xorb gtu (xorb (Z.testbit real_e 7) (Z.testbit 30 7)) in
+  mux2 shift_sign shifted_right shifted_left.
+(* hw_signed_gt_constant(real_e, 30): ComparatorSignedUnsigned, gt = gtu xor (sign of real_e xor sign of 30) *)
+Definition f2i_too_big (a : Z) : bool :=
+  let real_e := fp_real_e a in
+  xorb (fst (fst (cmp_w 8 real_e 30))) (xorb (Z.testbit real_e 7) (Z.testbit 30 7)).
+(* plost_hi = 32 is the circuit: Range(shifted, 32, 0) *)
+Definition fp2int_gen (plost_hi : Z) (a : Z) : Z * bool * bool * bool :=
+  let sign := fp_s a in
+  let is_denorm := fp_isdenorm a in
+  let is_zero := fp_iszero a in
+  let sign_real_e := Z.testbit (fp_real_e a) 7 in
+  let shifted := f2i_shifted a in                                      (* 64 bits *)
+  let too_big := f2i_too_big a in
   let final_m_pos := rng 64 32 shifted in                              (* 33 bits *)
   let final_m_neg := sub_w 33 0 final_m_pos in                         (* Neg, 33 bits *)
   let final_m := mux2 sign final_m_pos final_m_neg in                  (* hw_if(sign, neg, pos) *)
